@@ -50,6 +50,10 @@ Templates ==
     Node("for", "", <<Nil, Nil, Nil, Blk(<<>>)>>),
     Node("for", "", <<Node("asg", "=", <<Id("i"), Num("0")>>), Nil, Nil, E(A)>>),
     Node("fdecl", "", <<Id("f"), PList(<<Id("p"), Id("q")>>), Blk(<<Ret(Id("p"))>>)>>),
+    E(Node("idx", "", <<Node("raw", "a\nb", <<>>), Num("0")>>)), Let("s", Node("raw", "a\nb", <<>>)),
+    Let("n", Node("mem", "", <<A, Id("p")>>)),
+    If(A, E(B), Node("fdecl", "", <<Id("z"), PList(<<>>), Blk(<<>>)>>)),
+    E(Node("mem", "", <<Node("mem", "", <<A, Node("bool", "true", <<>>)>>), Node("null", "", <<>>)>>)),
     E(Bin("+", Node("un", "-", <<A>>), B)),
     Let("y", Node("arr", "", <<Num("1"), Bin("*", Node("un", "!", <<A>>), Num("2"))>>)),
     E(Node("call", "", <<Id("f"), Bin("-", Node("un", "-", <<A>>), B), Id("c")>>)) }
